@@ -68,6 +68,8 @@ pub enum Step { Fire(usize), Ctl(usize, bool),
 pub struct UnitEnv {
     pub next: String,                    // timing token
     pub wake: Vec<Step>,
+    /// the timers of `wake` fire together: all of them are released before the machine is polled again
+    pub burst: bool,
     pub wakedt: (i128, i128),
     pub allow: String,                   // decision token
     pub uc: VecDeque<HttpOutcome>,
